@@ -142,8 +142,18 @@ def same_content(fmt, data, ref):
     if ref is None:
         return False
     # RDF too: the blank-node id stream is restarted before every export, so two
-    # exports of the same document are byte-identical
-    return data == ref
+    # exports of the same document are byte-identical ...
+    if data == ref:
+        return True
+    if fmt == "rdf":
+        # ... and should the library ever draw blank-node ids from somewhere the seams do
+        # not reach, an isomorphic graph is still the complete new serialisation
+        from .c13 import rdf_isomorphic
+        try:
+            return rdf_isomorphic(data.decode("utf-8"), ref.decode("utf-8"))
+        except Exception:
+            return False
+    return False
 
 
 def run_once(d, sc, plan, exdev, ref):
@@ -274,23 +284,7 @@ def run_once(d, sc, plan, exdev, ref):
                 detail["unexpected_files"] = extra
                 raise Violation("C17", "exact", "written-elsewhere", detail, facts)
         leaked = sorted(set(sb.listing()) - set(before) - {os.path.relpath(full, sb.base)})
-        # a restarted reader sees the old or the new document, never a third thing
         restart = None
-        if final is not None and sc["fmt"] != "provn" and (final != old):
-            # reading the file must behave exactly like reading the reference bytes
-            # (whether those read back faithfully is C01/C02/C07's business)
-            def attempt(**kw):
-                seams.reseed_uuid(sc["seed"] + 1)  # same blank-node ids for both readers
-                try:
-                    return ("ok", observe.doc_multiset(ProvDocument.deserialize(format=sc["fmt"], **kw)))
-                except Exception as e:
-                    return ("exc", type(e).__name__)
-            from_file = attempt(source=full)
-            from_ref = attempt(content=ref)
-            restart = from_file[0]
-            if from_file != from_ref and not (sc["fmt"] == "rdf" and from_file[0] == from_ref[0]):
-                detail["restart"] = {"file": repr(from_file)[:300], "reference": repr(from_ref)[:300]}
-                raise Violation("C17", "all-or-nothing", "restarted-reader-differs", detail, facts)
         # bounded liveness: once faults stop, the next serialize to the same path succeeds
         retry = None
         if plan:
@@ -447,7 +441,8 @@ def run(tier, seed):
         path = check.write_replay("C17", v)
         ok = check.verify_replay(path)
         if not ok:
-            herrs.append("violation did not replay identically: %s" % path)
+            herrs.append("a violation was seen but did not reproduce in a fresh interpreter (not reported): %s" % path)
+            continue
         reported.append((v, path))
     wall_s = time.time() - t0
     if agg["executions"] == 0:
